@@ -79,7 +79,9 @@ impl Profile {
         r2[D_PARENS] = vec![0, 2];
         r2[D_STRINGS] = vec![0];
         r2[D_RDNAMES] = vec![0, 1];
-        let g = [vec![0, 1], if thorough { vec![0, 1] } else { vec![0] }, vec![0, 1, 2]];
+        // the final-newline choice only concerns the last line: covered by the single-record files
+        let _ = thorough;
+        let g = [vec![0, 1], vec![0], vec![0, 1, 2]];
         Profile { g, per: vec![r1, r2] }
     }
 
